@@ -9,6 +9,13 @@ TEXT = {
  'C05': ('Bounded symbolic model checking of the real decoder (IR-derived C, CBMC/SAT): every primitive from an arbitrary I_dec state on arbitrary remaining input of bounded length, at hooked window sizes; End-of-input must be thrown exactly when the input is a truncated prefix.', '4 C05, 3.2, 3.6'),
  'C06': ('Bounded symbolic model checking of the real encoder: one inductive step per public write operation from an arbitrary buffer state (symbolic fill level/contents/argument) against a reference RFC 8949 encoder; sequences of any length follow from the step.', '4 C06, 3.2'),
  'C07': ('Bounded symbolic model checking of the real decoder against a reference RFC 8949 parser, all head widths and window offsets; skip_item verified body-wise against the contract of its recursive call.', '4 C07, 3.3'),
+ 'C03': ('Bounded symbolic model checking of every read-side unit that touches untrusted bytes (decoder primitives on arbitrary input, renderers on arbitrary strings) plus an SMT verdict over all 64-bit values for the time-offset arithmetic; memory safety = CBMC pointer/bounds checks inside the real code.', '4 C03'),
+ 'C11': ('Solver verdict for all values of each table key type (hash/equality agreement, two symbolic values) and bounded model checking of whole BlockTable histories (<= 3 symbolic additions + queries).', '4 C11'),
+ 'C13': ('Bounded model checking of rotation at the writer and encoder layers: a rotation that returns normally has closed the old output; all buffered bytes reach the old sink first. Exporter-level rotation histories: see notes.', '4 C13'),
+ 'C14': ('Bounded model checking of the real gzip driver against a nondeterministic model of the zlib API (progress, FINISH/STREAM_END), ghost byte accounting; compression itself is trusted.', '4 C14'),
+ 'C15': ('Bounded model checking of Writer<std::string> histories against a file-system model that checks the completeness invariant at every stub call (= every instant the process could die).', '4 C15'),
+ 'C16': ('Bounded model checking with the outcome of every ::write / ofstream operation nondeterministic (fault sequences symbolic); swallowed failures are listed as known findings.', '4 C16'),
+ 'C19': ('Bounded model checking of BlockTable copy construction / assignment with the source destroyed afterwards: CBMC\'s deallocated-object check decides independence; whole-block copies outside the bound.', '4 C19'),
  'C17': ('Solver verdicts (z3/cvc5, integer encoding with explicit wrap) over ALL 64-bit inputs of the loop-free timestamp kernels inside the stated preconditions; encoding regenerated from the IR and validated against a native build each run.', '4 C17, 2.4'),
 }
 NOTE = 'Trusted: clang-14 lowering, tools/ir2c.py (validated per run by native differential execution), model std/boost headers in stubs/, CBMC 6.11 + cadical; bounds in evidence; hooked window sizes instead of 2048/65535.'
